@@ -728,12 +728,23 @@ func (r *Resolver) build() {
 		})
 		// composite literals appear as stores to FieldAddr of a fresh Alloc: covered above
 	}
-	for _, fn := range r.w.RepoFuncs() {
+	seenSynth := map[*ssa.Function]bool{}
+	var scan func(fn *ssa.Function, d int)
+	scan = func(fn *ssa.Function, d int) {
 		for _, c := range callsIn(fn) {
 			for _, callee := range r.Callees(c) {
 				r.callers[callee] = append(r.callers[callee], c)
+				// a synthetic wrapper (bound method value `add := ig.require`, thunk, promoted method): its
+				// body is the only caller of the method it stands for
+				if callee.Synthetic != "" && callee.Blocks != nil && callee.Pkg == nil && !seenSynth[callee] && d < 3 {
+					seenSynth[callee] = true
+					scan(callee, d+1)
+				}
 			}
 		}
+	}
+	for _, fn := range r.w.RepoFuncs() {
+		scan(fn, 0)
 	}
 }
 
